@@ -346,6 +346,11 @@ theorem kinv_step (s s' : St) (e : Ev) (h : KInv s) (hs : step s e = some s') : 
     split at hs
     · simp at hs; subst hs; exact h
     · simp at hs
+  | boff k b =>
+    simp only [step] at hs
+    split at hs
+    · simp at hs; subst hs; exact h
+    · simp at hs
   | probe j c =>
     simp only [step] at hs
     split at hs
